@@ -11,7 +11,7 @@
 (* harness realises with the independent reference encoders (harness/instruments.py) and reads with the real readers.    *)
 EXTENDS Integers, Sequences, FiniteSets, TLC, Json, SequencesExt
 
-FORMATS == {"triaxys", "ndbc_ascii", "spotter", "datawell", "obscape", "ww3_station", "swan", "xwaves", "octopus"}
+FORMATS == {"triaxys", "ndbc_ascii", "spotter", "datawell", "obscape", "ww3_station", "swan", "xwaves"}   \* the formats C13 names (octopus: see C11)
 
 (* ---- (1) factors: <<num, den, pik, rgk>> = num/den * pi^pik * (rho g)^rgk ---- *)
 Factor(fmt, variant) ==
@@ -22,8 +22,7 @@ Factor(fmt, variant) ==
     [] fmt = "swan" -> IF variant = "EnDens" THEN <<1, 1, 0, -1>> ELSE <<1, 1, 0, 0>>      \* J/m2/Hz/deg -> / (rho g)
     [] fmt = "ndbc_ascii" -> <<1, 1, 0, 0>>                    \* m2/Hz; 2-D: x spreading (deg^-1), see (2)
     [] fmt = "spotter" -> <<1, 1, 0, 0>>
-    [] fmt = "datawell" -> <<1, 1, 0, 0>>                      \* column 2 is S/Smax: x Smax, see the encoder
-    [] fmt = "octopus" -> <<1, 1, 0, 0>>                       \* energy per bin / (df dd), decided per bin by the encoder's widths
+    [] OTHER -> <<1, 1, 0, 0>>                                 \* datawell: column 2 is S/Smax: x Smax, see the encoder
 \* direction written in the file (whole degrees on the lattice) -> coming-from nautical degrees
 DirMap(fmt, variant, d) ==
   CASE fmt = "swan" /\ variant = "CDIR" -> (270 - d) % 360         \* cartesian going-to? -> nautical (to_nautical)
@@ -45,17 +44,19 @@ SortedAsc(s) == \A i \in 1..(Len(s) - 1) : s[i] <= s[i+1]
 ReadTimes(file) == SortSeq(file, LAMBDA a, b : a < b)
 
 CONSTANTS MAXREC
-VARIABLES fmt, variant, nrec, order, nf, nd, n1d
-vars == <<fmt, variant, nrec, order, nf, nd, n1d>>
+VARIABLES fmt, variant, nrec, order, nf, nd, n1d, nloc
+vars == <<fmt, variant, nrec, order, nf, nd, n1d, nloc>>
 Variants(f) == CASE f = "triaxys" -> {"directional", "nondirectional"}
                  [] f = "ndbc_ascii" -> {"realtime", "realtime_2d", "history", "history_nominutes"}
                  [] f = "spotter" -> {"csv", "json"}
-                 [] f = "swan" -> {"LONLAT", "LOCATIONS", "RFREQ", "CDIR", "EnDens", "notime", "blocks"}
+                 [] f = "swan" -> {"LONLAT", "LOCATIONS", "RFREQ", "CDIR", "EnDens", "VaDens", "notime", "blocks"}
+                 [] f = "xwaves" -> {"int32", "double"}          \* how the date vectors are stored in the MAT file
                  [] OTHER -> {"default"}
 Perms(m) == {p \in [1..m -> 1..m] : \A a, b \in 1..m : a # b => p[a] # p[b]}
 Init == /\ fmt \in FORMATS /\ variant \in Variants(fmt)
         /\ nrec \in 1..MAXREC /\ order \in Perms(nrec)
         /\ nf \in {2, 3, 5} /\ nd \in {4, 6, 12} /\ n1d \in BOOLEAN
+        /\ nloc \in (IF fmt = "ww3_station" THEN {1, 2} ELSE {1})      \* output points per time step
 Next == UNCHANGED vars
 Spec == Init /\ [][Next]_vars
 \* records carry times 1..nrec written in the order `order`; the reader must return them sorted, each exactly once
@@ -65,7 +66,11 @@ ReconstructionIntegrates == \A n \in {3, 4, 6} : \A a1 \in {0, 60, 90, 180} : \A
                                (n = 4 => ((a1 % 90) = 0 /\ (a2 % 90) = 0)) /\ (n \in {3, 6} => ((a1 % 60) = 0 /\ (a2 % 60) = 0)) => NdbcIntegratesToOne(n, a1, a2, R1, R2)
 \* with only two directions the second harmonic does not cancel: the reconstruction needs at least three (kept as a documented boundary)
 TwoDirectionsDoNotIntegrate == ~NdbcIntegratesToOne(2, 0, 0, 0, 3)
+Lattice == {30 * k : k \in 0..11}
+DirMapsAreBijections == \A f \in FORMATS : \A v \in Variants(f) : {DirMap(f, v, d) : d \in Lattice} = Lattice
+\* ww3_outp writes going-to directions: the reader's mapping is the opposite direction; CDIR is SWAN's cartesian convention
+DirMapMeaning == \A d \in Lattice : DirMap("ww3_station", "default", d) = (d + 180) % 360 /\ DirMap("swan", "CDIR", d) = (270 - d + 360) % 360
 FactorsWellFormed == \A f \in FORMATS : \A v \in Variants(f) : Factor(f, v)[2] > 0
-EmitInv == PrintT(ToJson([fmt |-> fmt, variant |-> variant, nrec |-> nrec, order |-> order, nf |-> nf, nd |-> nd, oned |-> n1d,
+EmitInv == PrintT(ToJson([fmt |-> fmt, variant |-> variant, nrec |-> nrec, order |-> order, nf |-> nf, nd |-> nd, oned |-> n1d, nloc |-> nloc,
                           factor |-> Factor(fmt, variant)]))
 =============================================================================
